@@ -49,7 +49,8 @@ def run(ctx):
         if r["status"] == "mismatch":
             ctx.violate(f"sweep-mismatch {r['key']}", f"exported model differs from eager JAX on adversarial inputs (mode {r.get('mode')}): {r.get('why')}",
                         {"case": r["key"], "mode": r.get("mode"), "inputs": r.get("inputs"), "why": r.get("why"), "seed": ctx.seed})
-        elif r["status"] in ("ort_load_error", "ort_run_error"):
+        elif r["status"] == "ort_load_error" or (r["status"] == "ort_run_error" and r.get("mode") == 0):
+            # (run-time errors on ADVERSARIAL inputs are recorded in coverage only: index/shape domains are unknown to the harness)
             ctx.violate(f"sweep-{r['status']} {r['key']}", f"exported model rejected by ONNX Runtime: {r.get('why')}",
                         {"case": r["key"], "why": r.get("why")})
     ctx.coverage.update({
